@@ -962,6 +962,46 @@ Section S1Final.
     - destruct (mem x (rev l)) eqn:E2; [|reflexivity]. apply mem_In in E2. apply in_rev in E2. apply mem_In in E2. congruence.
   Qed.
 
+  Lemma init_inv : forall f orders xs pe0,
+    f_aparams f = [] -> NoDup (f_tparams f) -> pbind V (f_tparams f) xs [] = Some pe0 ->
+    exists ρ0, Sem.bind (f_tparams f) xs [] = Some ρ0 /\ inv V pe0 [rev (init_scope f)] ρ0 (init_state f orders).
+  Proof.
+    intros f orders xs pe0 Hap Hnd Ep.
+    destruct (pbind_spec _ _ _ _ Hnd Ep) as (L & N & P).
+    destruct (bind_spec (f_tparams f) xs [] L Hnd) as (ρ0 & B & N' & P').
+    exists ρ0. split; [exact B|].
+    unfold init_scope. rewrite Hap. cbn [map]. rewrite app_nil_r. split; [|split; [|split]].
+    - intros x pv Hx. destruct (in_dec string_dec x (f_tparams f)) as [Hin|Hnin].
+      + destruct (In_nth_error _ _ Hin) as (i & Hi).
+        assert (Hlt : i < List.length xs) by (rewrite <- L; apply nth_error_Some; congruence).
+        destruct (nth_error xs i) as [v|] eqn:Ev; [|apply nth_error_None in Ev; lia].
+        rewrite (P i x v Hi Ev) in Hx. inversion Hx; subst.
+        exists x. split.
+        * cbn [scopes_find]. rewrite <- map_rev, scope_find_self, mem_rev.
+          replace (mem x (f_tparams f)) with true by (symmetry; apply mem_In; exact Hin). reflexivity.
+        * split; [eapply P'; eassumption | intros []].
+      + rewrite N in Hx by exact Hnin. discriminate Hx.
+    - intros x Hx. cbn [scopes_find]. rewrite <- map_rev, scope_find_self, mem_rev.
+      destruct (mem x (f_tparams f)) eqn:E; [|reflexivity]. apply mem_In in E.
+      destruct (In_nth_error _ _ E) as (i & Hi).
+      assert (Hlt : i < List.length xs) by (rewrite <- L; apply nth_error_Some; congruence).
+      destruct (nth_error xs i) as [v|] eqn:Ev; [|apply nth_error_None in Ev; lia].
+      rewrite (P i x v Hi Ev) in Hx. discriminate Hx.
+    - intros m v Hm. cbn [init_state ts_used]. apply -> in_rev.
+      destruct (in_dec string_dec m (f_tparams f)) as [Hin|Hnin]; [exact Hin|].
+      rewrite N' in Hm by exact Hnin. discriminate Hm.
+    - cbn. intros x [].
+  Qed.
+
+  (* translate, with its fuel made explicit *)
+  Lemma translate_eq : forall legacy cic afuel orders f,
+    translate legacy globals cic afuel orders f =
+    match Translate.tr_stmts globals cic afuel legacy (f_tparams f) (S 11) true (f_body f) [] [rev (init_scope f)] [] (init_state f orders) with
+    | Some ((_, outs), _, nodes) => Some (Graph (f_tparams f) [] nodes outs)
+    | None => None
+    end.
+  Proof. reflexivity. Qed.
+
   Theorem translate_straightline_correct : forall cic afuel orders f g xs vs fuel2 k pre es,
     f_body f = pre ++ [SReturn es] -> assigns_ok pre = true -> forallb expr_ok es = true ->
     f_aparams f = [] -> NoDup (f_tparams f) ->
@@ -970,38 +1010,14 @@ Section S1Final.
     eval_graph V sem truth trip of_nat of_bool limit (S k) [] g xs = Some vs.
   Proof.
     intros cic afuel orders f g xs vs fuel2 k pre es Hbody Hpre Hes Hap Hnd Htr Hev.
-    unfold translate in Htr. rewrite Hbody in Htr.
-    destruct (Translate.tr_stmts globals cic afuel false (f_tparams f) stmt_depth_fuel true (pre ++ [SReturn es]) [] [rev (init_scope f)] [] (init_state f orders))
+    rewrite translate_eq, Hbody in Htr.
+    destruct (Translate.tr_stmts globals cic afuel false (f_tparams f) (S 11) true (pre ++ [SReturn es]) [] [rev (init_scope f)] [] (init_state f orders))
       as [[[[sc' outs] st'] nodes]|] eqn:Et; [|discriminate]. inversion Htr; subst g. clear Htr.
     unfold eval_script in Hev. rewrite Hbody in Hev.
     destruct (pbind V (f_tparams f) xs []) as [pe0|] eqn:Ep; [|discriminate].
     destruct (PySem.exec_block V sem truth trip of_nat while_limit globals (S fuel2) (pre ++ [SReturn es]) pe0) as [[e1|e1|rv]|] eqn:Ex; try discriminate.
     inversion Hev; subst rv. clear Hev.
-    destruct (pbind_spec _ _ _ _ Hnd Ep) as (L & N & P).
-    destruct (bind_spec (f_tparams f) xs [] L Hnd) as (ρ0 & B & N' & P').
-    assert (Hinv : inv V pe0 [rev (init_scope f)] ρ0 (init_state f orders)).
-    { unfold init_scope. rewrite Hap. cbn [map]. rewrite app_nil_r. split; [|split; [|split]].
-      - intros x pv Hx. destruct (in_dec string_dec x (f_tparams f)) as [Hin|Hnin].
-        + destruct (In_nth_error _ _ Hin) as (i & Hi).
-          assert (Hlt : i < List.length xs) by (rewrite <- L; apply nth_error_Some; congruence).
-          destruct (nth_error xs i) as [v|] eqn:Ev; [|apply nth_error_None in Ev; lia].
-          rewrite (P i x v Hi Ev) in Hx. inversion Hx; subst.
-          exists x. split.
-          * cbn [scopes_find]. rewrite <- map_rev, scope_find_self, mem_rev.
-            replace (mem x (f_tparams f)) with true by (symmetry; apply mem_In; exact Hin). reflexivity.
-          * split; [eapply P'; eassumption | intros []].
-        + rewrite N in Hx by exact Hnin. discriminate Hx.
-      - intros x Hx. cbn [scopes_find]. rewrite <- map_rev, scope_find_self, mem_rev.
-        destruct (mem x (f_tparams f)) eqn:E; [|reflexivity]. apply mem_In in E.
-        destruct (In_nth_error _ _ E) as (i & Hi).
-        assert (Hlt : i < List.length xs) by (rewrite <- L; apply nth_error_Some; congruence).
-        destruct (nth_error xs i) as [v|] eqn:Ev; [|apply nth_error_None in Ev; lia].
-        rewrite (P i x v Hi Ev) in Hx. discriminate Hx.
-      - intros m v Hm. cbn [init_state ts_used]. apply -> in_rev.
-        destruct (in_dec string_dec m (f_tparams f)) as [Hin|Hnin]; [exact Hin|].
-        rewrite N' in Hm by exact Hnin. discriminate Hm.
-      - cbn. intros x []. }
-    unfold stmt_depth_fuel in Et.
+    destruct (init_inv f orders xs pe0 Hap Hnd Ep) as (ρ0 & B & Hinv).
     edestruct straight_block_sound with (ev := eval_graph V sem truth trip of_nat of_bool limit k) (of_bool := of_bool) (limit := limit)
       as (ρ1 & R1 & L1); [exact sem_identity | exact Hpre | exact Hes | exact Et | exact Hinv | exact Ex | reflexivity |].
     cbn [eval_graph]. unfold eval_body. cbn [g_ins g_nodes g_outs]. rewrite B, R1. exact L1.
